@@ -253,6 +253,7 @@ theorem post_finishCall {st : St} (hI : Inv st) (f : FuncVal) (args : List Obj) 
       intro _ s'' hIs'' hle'' _
       exact Post.pure hIs'' (okObj_mono hle'' _ hres')
     · refine Post.ite (fun _ => Post.pure hIs' hres') (fun _ => ?_)
+      refine Post.ite (fun _ => Post.pure hIs' hres') (fun _ => ?_)
       refine Post.bind (post_cacheSet hIs' f.key args hres' output) ?_
       intro _ s'' hIs'' hle'' _
       exact Post.pure hIs'' (okObj_mono hle'' _ hres')
